@@ -276,13 +276,13 @@ def run_property(pid: str, tier: str, seed: int, repo: str, only_clause: str | N
     for c in clauses:
         cases = per_clause_cases[c.name]
         tab = {"cases": len(cases), "nontrivial": 0, "ok": 0, "rejected": 0, "indeterminate": 0, "no_verdict": 0,
-               "violations": 0, "known_finding_hits": 0, "tolerance": c.tol, "doc": c.doc, "cpu_s": 0.0}
+               "violations": 0, "known_finding_hits": 0, "tolerance": c.tol, "doc": c.doc, "elapsed_s_sum": 0.0}
         seen_local = set()
         for idx, (case, res) in enumerate(zip(cases, results[c.name])):
             evaluations += 1
             key = c.name + ":" + case_key(case)
             st = res["status"]
-            tab["cpu_s"] += res.get("t", 0.0)
+            tab["elapsed_s_sum"] += res.get("t", 0.0)
             info = res.get("info") or {}
             states += int(info.get("states", 0))
             transitions += int(info.get("transitions", info.get("calls", 1)))
@@ -318,7 +318,7 @@ def run_property(pid: str, tier: str, seed: int, repo: str, only_clause: str | N
                 tab["alphabets"] = c.alphabets(tier, seed)
             except Exception as e:  # noqa: BLE001
                 tab["alphabets"] = {"error": repr(e)}
-        tab["cpu_s"] = round(tab["cpu_s"], 2)
+        tab["elapsed_s_sum"] = round(tab["elapsed_s_sum"], 2)  # sum of per-case elapsed time inside the workers (inflated on a loaded machine)
         clause_tables[c.name] = tab
         # samples: first, a middle one and the last case of every clause
         for idx in sorted({0, len(cases) // 2, len(cases) - 1} if cases else set()):
